@@ -265,7 +265,7 @@ func RunTeardown(sc TDScenario) (TDObs, error) {
 		pm.DisconnectAll()
 	}
 	// the read loop reports the end of the connection asynchronously
-	waitUntil(3*time.Second, func() bool { return count() == [3]int{} })
+	waitUntil(15*time.Second, func() bool { return count() == [3]int{} })
 	o.After = count()
 	return o, nil
 }
